@@ -515,8 +515,6 @@ func (r *FileRestorer) restoreIdent(n *dst.Ident, parentName, parentField, paren
 	out := &ast.SelectorExpr{}
 	r.Ast.Nodes[n] = out
 	r.Dst.Nodes[out] = n
-	r.Dst.Nodes[out.Sel] = n
-	r.Dst.Nodes[out.X] = n
 	r.applySpace(n, "Before", n.Decs.Before)
 
 	// Decoration: Start
@@ -533,6 +531,10 @@ func (r *FileRestorer) restoreIdent(n *dst.Ident, parentName, parentField, paren
 
 	// Node: Sel
 	out.Sel = r.restoreNode(dst.NewIdent(n.Name), "SelectorExpr", "Sel", "Ident", allowDuplicate).(*ast.Ident)
+
+	// X and Sel only exist on the ast side: map them back to the Ident they were expanded from
+	r.Dst.Nodes[out.X] = n
+	r.Dst.Nodes[out.Sel] = n
 
 	// Decoration: End
 	r.applyDecorations(out, "End", n.Decs.End, true)
